@@ -50,7 +50,7 @@ func c10Trees(es []*ref.Node, ops []string) []*ref.Node {
 }
 
 // operand texts; the document nests so that pipes change what they mean
-var c10Operands = []string{"a", "b", "c", "n", "x", "x.n", "@.a", "a[0]", "xs[0]", "`1`", "`2`", "`0`", "`3`", "`true`", "`false`", "`null`", "'s'", "length(xs)", "(a)", "(n)", "abs(b)", "xs[*]", "ys[*]", "{n: n}.n", "[a][0]"}
+var c10Operands = []string{"a", "b", "c", "n", "x", "x.n", "@.a", "a[0]", "xs[0]", "`1`", "`2`", "`0`", "`3`", "`true`", "`false`", "`null`", "'s'", "length(xs)", "(a)", "(n)", "abs(b)", "xs[*]", "ys[*]", "{n: n}.n", "[a][0]", "xs[]", "ys[]", "a[]", "xs[?@]", "x.xs[]", "xs[1:]", "*", "x.*"}
 
 var c10Vals = []string{"0", "1", "2", "3", "5", "-1", "-2", "0.5", "7", "10", "true", "false", "null", `"s"`, "[]", "[1]", "[2,3]", `{"n":4}`}
 
@@ -190,7 +190,7 @@ func (c *Ctx) c10Chain(r *gen.R, ops []string, unary bool) int {
 		feats := map[string]string{"operators": strings.Join(ops, " ")}
 		m, l := c.CheckModel("C10", T, doc, goDoc, CheckOpts{Features: feats})
 		l2 := c.LibSearch(specShape, goDoc)
-		if !SameOutcome(l, l2, false) {
+		if !SameOutcome(l, l2, Enumerates(T)) {
 			c.Report(Violation{Rule: "C10/implied-parentheses", Expr: T, Data: ref.ToJSONText(doc), Got: ShowOut(l), Want: ShowOut(l2) + " (result of " + specShape + ")", Features: feats})
 		}
 		// parentheses override: each alternative grouping, written explicitly, must match the model
@@ -247,7 +247,7 @@ func c10Triples(c *Ctx, idx int) {
 func c10Tight(c *Ctx, idx int) {
 	r := c.Rand("")
 	op := c10Ops[idx%len(c10Ops)]
-	forms := []string{"!a %s b", "a %s !b", "-a %s b", "a %s -b", "+a %s b", "a %s −b", "a.n %s b", "a %s x.n", "xs[0] %s b", "a %s xs[1]", "a %s xs[*]", "xs[*] %s ys[*]", "!x.n %s b", "-x.n %s b", "a %s abs(b)", "!a[0] %s b", "!xs %s b", "a %s {n: n}.n", "a %s [b][0]", "a %s (b)", "(a %s b)", "[a %s b][0]", "{k: a %s b}.k", "xs[?@ %s `1`]", "not_null(a %s b)", "let $v = a %s b in $v"}
+	forms := []string{"xs[] %s b", "a %s xs[]", "xs[] %s ys[] %s c", "a %s xs[] %s c", "xs[?@] %s b", "xs[*] %s b %s c", "x.* %s a", "!a %s b", "a %s !b", "-a %s b", "a %s -b", "+a %s b", "a %s −b", "a.n %s b", "a %s x.n", "xs[0] %s b", "a %s xs[1]", "a %s xs[*]", "xs[*] %s ys[*]", "!x.n %s b", "-x.n %s b", "a %s abs(b)", "!a[0] %s b", "!xs %s b", "a %s {n: n}.n", "a %s [b][0]", "a %s (b)", "(a %s b)", "[a %s b][0]", "{k: a %s b}.k", "xs[?@ %s `1`]", "not_null(a %s b)", "let $v = a %s b in $v"}
 	for k := 0; k < 4; k++ {
 		doc := c10Doc(r, 2)
 		goDoc := ref.ToGo(doc, ref.JSONNumber)
@@ -260,7 +260,10 @@ func c10Tight(c *Ctx, idx int) {
 			m, l := c.CheckModel("C10", T, doc, goDoc, CheckOpts{Features: map[string]string{"operators": op}})
 			spec := ref.FullParen(pr.Node)
 			l2 := c.LibSearch(spec, goDoc)
-			if l.Panic == nil && !SameOutcome(l, l2, false) {
+			if Enumerates(T) && m.Unspec {
+				continue
+			}
+			if l.Panic == nil && !SameOutcome(l, l2, Enumerates(T)) {
 				c.Report(Violation{Rule: "C10/implied-parentheses", Expr: T, Data: ref.ToJSONText(doc), Got: ShowOut(l), Want: ShowOut(l2) + " (result of " + spec + ")"})
 			}
 			if IsNontrivialOutcome(m) {
